@@ -110,22 +110,35 @@ def GStore.postRecv (g : GStore) (fab node c : Nat) : GStore × Bool :=
     else
       ({ entries := g.entries.set (lruIdx g.entries) ne, clock := clk }, true)
 
-/-! ## Set-based specification (written from the property text, not from the code) -/
+/-! ## Set-based specifications
 
-/-- Unicast secure session: a counter is accepted iff it was not accepted before and is not
-older than the window below the largest counter accepted so far. -/
+Two kinds of object live here, and they must not be confused:
+* written FROM THE PROPERTY TEXT: `specAccept` (secure unicast sessions: the four clauses of C04 in one
+  set-level predicate) and `specPlainDemand` (unsecured sessions: what the text demands — first
+  message, restart, accepted-once between restarts, newer, in-window first-timer — and `none` where it
+  is silent);
+* a REFINEMENT TARGET, i.e. an abstract (set-level, no bitmap) re-description OF THE CODE:
+  `specPlainAccept`. It is not derived from the text; its `floor ≤ c` conjunct encodes the code's
+  choice to treat the window below a restart point as already received (`ctr_bitmap = 0xffff`).
+  Theorem `unsecured_is_spec` is therefore a refinement between two descriptions of the code;
+  the tie to the text is `plain_meets_demand` / `unsecured_run_meets_demand`. -/
+
+/-- TEXT-DERIVED. Unicast secure session: a counter is accepted iff it was not accepted before and is
+not older than the window below the largest counter accepted so far. -/
 def specAccept (acc : List Nat) (c : Nat) : Bool :=
   !acc.contains c && acc.all (fun a => a ≤ c + L)
 
 /-! ### Unsecured sessions: the same, plus the restart rule
 
-Written from the property text: between two restarts of the peer's counter a value is accepted at
+The property text (read as: clauses 1–4 on secure sessions; unsecured sessions "additionally accept a
+restart of the peer's counter"): between two restarts of the peer's counter a value is accepted at
 most once, a newer value and an in-window first-timer are accepted; a value that lies more than
 the window below a value accepted since the last restart IS a restart: it is accepted and starts a
 new epoch. `floor` is the value the current epoch started with after a restart (0 in the first
-epoch): what the peer sent *below* it before the receiver noticed the restart is unknowable, the
-code treats the window below a restart point as already received (like a group sender's
-trust-first message) -- the property is silent there (`specPlainDemand = none`). -/
+epoch). What the peer sent *below* it before the receiver noticed the restart: THE CODE treats the
+window below a restart point as already received (like a group sender's trust-first message);
+`specPlainDemand` is `none` there. (Read literally, clause 4 — "on a unicast session" — would demand
+that such a first-timer be accepted, as it is on a fresh session; see docs/C04.md.) -/
 
 structure PSpec where
   /-- restart point of the current epoch (0 before the first restart) -/
@@ -139,11 +152,13 @@ def PSpec.init : PSpec := { floor := 0, acc := [] }
 /-- `c` is a restart: more than the window below a value accepted in this epoch -/
 def PSpec.isRestart (p : PSpec) (c : Nat) : Bool := p.acc.any (fun a => decide (c + L < a))
 
-/-- the verdict of the code, exactly (theorem `unsecured_is_spec`) -/
+/-- REFINEMENT TARGET, not text-derived: the verdict of the code, exactly, re-described on sets
+(theorem `unsecured_is_spec`). The `floor ≤ c` conjunct is the code's choice, not the property's. -/
 def specPlainAccept (p : PSpec) (c : Nat) : Bool :=
   p.acc.isEmpty || p.isRestart c || (!p.acc.contains c && decide (p.floor ≤ c))
 
-/-- what the property demands: `none` = silent (a first-timer below the restart point) -/
+/-- TEXT-DERIVED: what the property demands of an unsecured session; `none` = silent (a first-timer
+below the restart point) -/
 def specPlainDemand (p : PSpec) (c : Nat) : Option Bool :=
   if p.acc.isEmpty then some true
   else if p.isRestart c then some true
